@@ -85,6 +85,15 @@ def KEnt.merge {F : Type} [FloatLike F] (l r : KEnt F) : KEnt F :=
     ok := l.ok && r.ok && eb ≤ tb / 4.0, steps := l.steps + r.steps + 2,
     rdepth := Nat.max l.rdepth (r.rdepth + 1) }
 
+/-- alternate on one register: a value by `+= x`, then a one-element register by `+= reg` -/
+def hybridFeed {F : Type} [FloatLike F] [Widen F Float] (e : KEnt F) (g : SeqGen) (j : Nat) : Nat → KEnt F
+  | 0 => e
+  | n + 1 =>
+    let (x, g') := g.next
+    let xf : F := Widen.down x
+    let e' := if j % 2 == 0 then e.add xf else e.merge ((KEnt.empty : KEnt F).add xf)
+    hybridFeed e' g' (j + 1) n
+
 def genFeed {F : Type} [FloatLike F] [Widen F Float] (e : KEnt F) (g : SeqGen) : Nat → KEnt F
   | 0 => e
   | n + 1 =>
@@ -145,6 +154,11 @@ partial def kInterp {F : Type} [FloatLike F] [Widen F Float] (toks : List String
       let id ← parseNat? id; let seed ← parseNat? seed; let param ← parseF64? param; let n ← parseNat? n
       match st.stack with
       | e :: es => kInterp rest impl { st with stack := genFeed e (SeqGen.new id seed.toUInt64 param) n :: es }
+      | [] => none
+  | "H" :: id :: seed :: param :: n :: rest => do
+      let id ← parseNat? id; let seed ← parseNat? seed; let param ← parseF64? param; let n ← parseNat? n
+      match st.stack with
+      | e :: es => kInterp rest impl { st with stack := hybridFeed e (SeqGen.new id seed.toUInt64 param) 0 n :: es }
       | [] => none
   | "d" :: rest =>
       match st.stack with
